@@ -279,6 +279,12 @@ class timemodel(_coreiterative):
         # find first time to save if exists
         while (isave < nsave) and (self.Qn.time > tsave[isave]):
             isave += 1
+        # a time to save equal to the starting time is the initial state (no zero-length step)
+        while (isave < nsave) and (self.Qn.time == tsave[isave]):
+            Qnn = self.Qn.copy()
+            Qnn.it = self._itstart + self._nit
+            results.append(Qnn)
+            isave += 1
         # MAIN LOOP
         while not checkend:
             dtloc = self.modeldisc.calc_timestep(self.Qn, condition)
